@@ -1218,15 +1218,18 @@ discard_append(ProtobufCBuffer *b, size_t len, const uint8_t *data)
 /* ------------------------------------------------------------------------- */
 
 /*
- * The ProtobufCAllocator MUST stay the first member and allocator_data points
- * at the Recorder itself.  The library calls alloc/free with
- * allocator->allocator_data as first argument, but the
- * PROTOBUF_C_BUFFER_SIMPLE_CLEAR macro of protobuf-c.h passes the allocator
- * object itself (`allocator->free(allocator, data)`).  With this layout both
- * conventions hand the callbacks the same address, i.e. the Recorder.
+ * allocator_data is NOT the address of the allocator object: it points at the
+ * Recorder, whose first member is a magic word, and the ProtobufCAllocator
+ * comes after it.  A callback that is handed anything else than
+ * allocator_data (e.g. the allocator object itself) is counted as a bad call
+ * (`closure`), served all the same, and makes every output line that reports
+ * the recorder's books differ.
  */
+#define REC_MAGIC 0x7265636f72646572ULL
 typedef struct {
+	uint64_t magic;
 	ProtobufCAllocator base;
+	size_t nclosure;		/* callbacks reached with a wrong closure argument */
 	/* plan */
 	size_t *refuse;
 	size_t nrefuse, refuse_cap;
@@ -1390,10 +1393,26 @@ tr_take(Recorder *r, void *p)
 	return (size_t) -1;
 }
 
+/* the Recorder behind a callback's closure argument; a wrong closure (not allocator_data) is counted as a bad call */
+static Recorder *
+rec_of(void *ad)
+{
+	Recorder *r = ad;
+
+	if (r != &g_rec || r->magic != REC_MAGIC) {
+		r = &g_rec;
+		r->nclosure++;
+		r->nbad++;
+		if (r->trace_on)
+			tr_printf(r, " x%llu%.0llu", 2, 0);
+	}
+	return r;
+}
+
 static void *
 rec_alloc(void *ad, size_t size)
 {
-	Recorder *r = ad;
+	Recorder *r = rec_of(ad);
 	size_t idx = r->nreq;
 	void *p;
 
@@ -1437,7 +1456,7 @@ rec_alloc(void *ad, size_t size)
 static void
 rec_free(void *ad, void *p)
 {
-	Recorder *r = ad;	/* allocator_data or the allocator itself: same address */
+	Recorder *r = rec_of(ad);
 
 	if (p == NULL) {
 		r->nbad++;	/* do_free never passes NULL */
@@ -1482,6 +1501,8 @@ rec_purge(void)
 	r->refuse_from = SIZE_MAX;
 	r->nfree_ok = 0;
 	r->nbad = 0;
+	r->nclosure = 0;
+	r->magic = REC_MAGIC;
 	r->scratch = NULL;
 	r->freed_scratch = 0;
 	r->trace_on = 0;
@@ -1886,6 +1907,7 @@ case_buf(void)
 	ob_sp_u64(g_rec.nfree_ok);
 	ob_sp_u64((uint64_t) g_rec.freed_scratch);
 	ob_sp_u64(g_rec.nlive);
+	ob_sp_u64(g_rec.nbad);	/* bad calls of the allocator: foreign / double frees, wrong closure argument */
 }
 
 static void
